@@ -80,6 +80,31 @@ hist = {}
 accepts = 0
 
 
+import contextlib
+import os
+import time
+
+
+@contextlib.contextmanager
+def process_zone(tz, suffix):
+    """The ceremony laptop's local time zone is not part of the rules: run with TZ=tz and timestamps written with the given suffix ('' = no offset)."""
+    old_tz, old_suffix = os.environ.get("TZ"), ksrxml.TS_SUFFIX
+    if tz is not None:
+        os.environ["TZ"] = tz
+        time.tzset()
+    ksrxml.TS_SUFFIX = suffix
+    try:
+        yield
+    finally:
+        ksrxml.TS_SUFFIX = old_suffix
+        if tz is not None:
+            if old_tz is None:
+                os.environ.pop("TZ", None)
+            else:
+                os.environ["TZ"] = old_tz
+            time.tzset()
+
+
 def run_case(kind, n, incs, exps, zsk, pol_kw, now=NOW, shuffle=False, desc=None):
     global accepts
     ids = [f"b{j:02d}-{R.randrange(10**6)}" for j in range(n)]
@@ -98,6 +123,8 @@ def run_case(kind, n, incs, exps, zsk, pol_kw, now=NOW, shuffle=False, desc=None
     srt = sorted(((b["exp"], b["inc"], b["id"]) for b in bundles))
     want = spec(now, pol, zsk, [(i, e) for (e, i, _) in srt])
     ok = impl_accept == want
+    read = {b.id: (b.inception, b.expiration) for b in req.bundles}
+    misread = [b["id"] for b in bundles if read.get(b["id"]) != (b["inc"], b["exp"])]
     if impl_accept:
         accepts += 1
     # the model is given the bundles in document order
@@ -109,9 +136,15 @@ def run_case(kind, n, incs, exps, zsk, pol_kw, now=NOW, shuffle=False, desc=None
          "now": ksrxml.fmt_dt(now), "impl": "accept" if impl_accept else r[2], "spec": "accept" if want else "reject", "xml_doc_order": order}
     if desc:
         d.update(desc)
-    meta.append({"kind": kind, "desc": d, "spec_ok": ok,
-                 "spec_msg": f"implementation {'accepts' if impl_accept else 'rejects (' + r[2] + ')'} but the documented region says {'accept' if want else 'reject'}",
-                 "key": None})
+    d["timestamps"] = "with +00:00" if ksrxml.TS_SUFFIX else "without offset"
+    d["TZ"] = os.environ.get("TZ", "(unset)")
+    msg = f"implementation {'accepts' if impl_accept else 'rejects (' + r[2] + ')'} but the documented region says {'accept' if want else 'reject'}"
+    if misread and ok:
+        ok = False
+        b0 = next(b for b in bundles if b["id"] == misread[0])
+        msg = (f"bundle {misread[0]} is judged on inception/expiration {read[misread[0]][0]} / {read[misread[0]][1]} but the document states "
+               f"{ksrxml.fmt_dt(b0['inc'])} / {ksrxml.fmt_dt(b0['exp'])} (UTC)")
+    meta.append({"kind": kind, "desc": d, "spec_ok": ok, "spec_msg": msg, "key": None})
     hist[kind] = hist.get(kind, 0) + 1
 
 
@@ -188,6 +221,32 @@ try:
                             kw["num_bundles"] = n + R.choice([-1, 1])
                         run_case("lattice-" + rule, n, incs, exps, zsk, kw, now, shuffle=R.random() < 0.3,
                                  desc={"rule": rule, "pos": pos, "delta_s": delta.total_seconds(), "minmax_equal": eq})
+
+    # A2. the same bounds with timestamps written without an offset (the form of the archived KSRs) and with the process in some other time zone
+    for tz, suffix in ((None, ""), ("VRF+05", ""), ("VRF-05:30", ""), ("VRF+05", "+00:00"), ("VRF-11", "")):
+        with process_zone(tz, suffix):
+            for n in (1, 2, 9):
+                zsk = zsk_for(False)
+                for rule in ("hz", "past", "ok", "omin", "vmax"):
+                    for delta in (D(seconds=-1), D(0), D(seconds=1)):
+                        incs, exps = baseline(n, validity=D(days=19))
+                        kw = pol_for(n, None, False)
+                        now = NOW
+                        pos = n - 1
+                        if rule == "hz":
+                            now = exps[pos] - D(days=kw["signature_horizon_days"]) - delta
+                        elif rule == "past":
+                            now = exps[0] + delta
+                        elif rule == "vmax":
+                            exps[pos] = incs[pos] + zsk["max_validity"] + delta
+                        elif rule == "omin":
+                            if n < 2:
+                                continue
+                            incs[pos] = exps[pos - 1] - (zsk["min_overlap"] + delta)
+                            exps[pos] = incs[pos] + D(days=19)
+                        elif delta != D(0):
+                            continue
+                        run_case("zone-" + rule, n, incs, exps, zsk, kw, now, desc={"rule": rule, "delta_s": delta.total_seconds()})
 
     # B. all 2^5 flag subsets on a reduced lattice (one rule violated at a time)
     for mask in range(32):
